@@ -48,6 +48,9 @@ func verifMkSeg(kind, maxLit int) verifSeg {
 func verifMkPat(kinds []int, maxLit int) (verifPat, bool) {
 	var p verifPat
 	p.allLit = true
+	if kinds == nil {
+		return p, false
+	}
 	np, nq := 0, 0
 	for _, k := range kinds {
 		if k == 0 && len(kinds) > 1 {
@@ -77,6 +80,9 @@ func verifMkPat(kinds []int, maxLit int) (verifPat, bool) {
 // verifDecodeShape maps a case index to a tuple of segment kinds:
 // indices [0,K) one segment, [K, K+K*K) two segments, ...
 func verifDecodeShape(idx, S, K int) []int {
+	if idx < 0 {
+		return nil
+	}
 	n, pow := 1, K
 	for idx >= pow {
 		idx -= pow
@@ -163,12 +169,19 @@ func verifSamePattern(a, b verifPat) bool {
 	return s
 }
 
-// Verif_C03_tree: R patterns of up to S segments, one cleaned request path.
+// Verif_C03_tree: R patterns of minS..S segments, one cleaned request path of minS..S segments.
 func Verif_C03_tree() {
-	R, S, maxLit := verifParam("R"), verifParam("S"), verifParam("maxLit")
+	R, S, minS, maxLit := verifParam("R"), verifParam("S"), verifParam("minS"), verifParam("maxLit")
 	K := maxLit + 3
-	nShapes := verifNumShapes(S, K)
-	c := verifCase(nShapes)
+	skip := verifNumShapes(minS-1, K) // shapes with fewer than minS segments are not generated
+	nShapes := verifNumShapes(S, K) - skip
+	// fan-out: worker c takes the shapes c, c+nc, c+2nc, ... for pattern 0
+	nc := verifParam("nc")
+	c := verifCase(nc)
+	if c >= nShapes {
+		return
+	}
+	c += nc * verifChoose("shape0", (nShapes-c+nc-1)/nc)
 
 	// pattern 0: the case; patterns 1..R-1: chosen, in non-decreasing shape
 	// order (a table is a set; pattern 0 still comes in every position
@@ -179,7 +192,7 @@ func Verif_C03_tree() {
 	for i := 0; i < R; i++ {
 		shape := c
 		if i == 1 {
-			shape = verifChoose("shape", nShapes+verifBadKinds)
+			shape = verifChoose("shape", nShapes+verifBadKinds*verifParam("bad"))
 			if shape >= nShapes {
 				pats = append(pats, verifBadPat(shape-nShapes))
 				continue
@@ -189,7 +202,7 @@ func Verif_C03_tree() {
 			shape = last + verifChoose("shape", nShapes-last)
 			last = shape
 		}
-		p, ok := verifMkPat(verifDecodeShape(shape, S, K), maxLit)
+		p, ok := verifMkPat(verifDecodeShape(shape+skip, S, K), maxLit)
 		if !ok {
 			return
 		}
@@ -222,7 +235,7 @@ func Verif_C03_tree() {
 	}
 
 	// request: a cleaned path of 1..S segments ("/" = one empty segment)
-	nreq := 1 + verifChoose("nreq", S)
+	nreq := minS + verifChoose("nreq", S-minS+1)
 	req := make([]string, nreq)
 	path := ""
 	for j := range req {
